@@ -78,6 +78,8 @@ def run(ctx, rep):
     r172(ctx, rep)
     r173(ctx, rep)
     r174(ctx, rep)
+    from . import c10
+    c10.run(ctx, rep, r1="R17.5", only_transform=True)
 
 
 def r171(ctx, rep):
